@@ -57,6 +57,7 @@ func EngErr(err error) string {
 
 // EngineRunner executes engine-layer script lines ("E ...") on the real engine.
 type EngineRunner struct {
+	stuck bool // a call of the engine never returned (watchdog): the handle is abandoned at the next close
 	Root       string            // scratch root of this scenario
 	dirs       map[string]string // logical directory name -> path
 	cur        string            // current logical directory
@@ -562,6 +563,20 @@ func (r *EngineRunner) Exec(f []string) (res string) {
 				}
 			}
 			defer func() { fio.VerifEvent = orig }()
+		}
+		if r.stuck {
+			// a call never returned: Close is tried under a watchdog and the database handle is given up
+			cdone := make(chan error, 1)
+			db := r.db
+			go func() { cdone <- db.Close() }()
+			select {
+			case <-cdone:
+			case <-time.After(10 * time.Second):
+				r.fail("C16", "Close did not return within 10 s: the directory lock is never released")
+			}
+			r.db = nil
+			r.stuck = false
+			return "err stuck"
 		}
 		err := r.db.Close()
 		r.so.afterOp(r, "close", err == nil, true, false)
@@ -1280,13 +1295,28 @@ func (r *EngineRunner) Exec(f []string) (res string) {
 		select {
 		case err = <-done: // nothing to scan: no probe
 		case <-parked:
-			for i := 1; i <= 2; i++ {
-				if e2 := r.db.Merge(); !errors.Is(e2, kv.ErrMergeIsProgress) {
-					r.fail("C07", "Merge call %d issued while another Merge was running returned %v instead of the merge-in-progress error (two merges share one output directory)", i, e2)
+			for i := 1; i <= 2 && !r.stuck; i++ {
+				probe := make(chan error, 1)
+				db := r.db
+				go func() { probe <- db.Merge() }()
+				select {
+				case e2 := <-probe:
+					if !errors.Is(e2, kv.ErrMergeIsProgress) {
+						r.fail("C07", "Merge call %d issued while another Merge was running returned %v instead of the merge-in-progress error (two merges share one output directory)", i, e2)
+					}
+				case <-time.After(10 * time.Second):
+					r.fail("C16", "Merge call %d issued while another Merge was running never returned: an earlier call left the engine lock held, Close can never release the directory", i)
+					r.stuck = true
 				}
 			}
 			close(release)
-			err = <-done
+			select {
+			case err = <-done:
+			case <-time.After(15 * time.Second):
+				r.fail("C16", "the Merge that was probed by two more Merge calls never returned: the engine lock was left held, Close can never release the directory")
+				r.stuck = true
+				err = errors.New("stuck")
+			}
 		case <-time.After(20 * time.Second):
 			r.fail("C09", "Merge did not reach its scan within 20 s")
 			close(release)
